@@ -612,14 +612,17 @@ Proof.
   apply andb_absorb. intros H. apply stereo_spec_lt in H. apply Nat.ltb_lt. lia.
 Qed.
 
-Lemma builtin_node_class I q :
-  node_class (builtin_graph I) q
-  = if bo_build_ok (bo I) || origin_keeps_class then class_spec (mol I) q else None.
+(* canonical_atoms_at_origin passes atom_class on (read from builder.py; repaired by ae1a4b7): this lemma fails,
+   and with it atom_classes_carried, if the repository drops it again *)
+Lemma origin_keeps_ok : origin_keeps_class = true.
+Proof. reflexivity. Qed.
+
+Lemma builtin_node_class I q : node_class (builtin_graph I) q = class_spec (mol I) q.
 Proof.
   unfold builtin_graph. rewrite node_class_mark_pi, node_class_mark_stereo, node_class_rebuild.
-  unfold builder_atoms, canonical, at_origin.
-  destruct (bo_build_ok (bo I)); [|destruct origin_keeps_class]; cbn [orb]; rewrite nth_error_map;
-    try rewrite <- nth_error_explicit_class; destruct (nth_error (explicit_atoms (mol I)) q); reflexivity.
+  unfold builder_atoms, canonical, at_origin. rewrite origin_keeps_ok.
+  destruct (bo_build_ok (bo I)); rewrite nth_error_map;
+    rewrite <- nth_error_explicit_class; destruct (nth_error (explicit_atoms (mol I)) q); reflexivity.
 Qed.
 
 Lemma builder_atoms_z I : map ma_z (builder_atoms I) = z_spec (mol I).
@@ -804,12 +807,75 @@ Proof.
   rewrite z_fresh, rdkit_atoms_z. apply (ra_atoms _ _ A).
 Qed.
 
-(* finite case analysis over the TRANSLATED calc_multiplicity: 0, 1 or 2 radical electrons *)
+Lemma Z_odd_of_nat n : Z.odd (Z.of_nat n) = Nat.odd n /\ Z.even (Z.of_nat n) = Nat.even n.
+Proof.
+  induction n as [|n [IHo IHe]]; [split; reflexivity|].
+  rewrite Nat2Z.inj_succ, Z.odd_succ, Z.even_succ, Nat.odd_succ, Nat.even_succ. split; assumption.
+Qed.
+
+Lemma mod2_of_nat n : (Z.of_nat n mod 2 = if Nat.odd n then 1 else 0)%Z.
+Proof. rewrite Zmod_odd. now rewrite (proj1 (Z_odd_of_nat n)). Qed.
+
+(* the TRANSLATED calc_multiplicity on a default multiplicity: doublet exactly for an odd radical-electron count *)
+Lemma calc_mult_gen_parity n : calc_mult_gen 1 n = if Nat.odd n then 2 else 1.
+Proof. unfold calc_mult_gen. cbn [Nat.eqb andb]. destruct (Nat.odd n), (1 <? n); reflexivity. Qed.
+
 Lemma rdkit_mult_spec I : rdk_agrees (mol I) (rd I) ->
   calc_mult_gen 1 (r_nrad (rd I)) = mult_spec (mol I).
 Proof.
-  intros A. destruct (ra_rad _ _ A) as [B P]. unfold mult_spec, p_mult. rewrite <- P.
-  destruct (r_nrad (rd I)) as [|[|[|n]]]; [reflexivity | reflexivity | reflexivity | lia].
+  intros A. pose proof (ra_rad _ _ A) as P. rewrite calc_mult_gen_parity. unfold mult_spec, p_mult. rewrite <- P, mod2_of_nat.
+  destruct (Nat.odd (r_nrad (rd I))); reflexivity.
+Qed.
+
+(* ---- the RDKit path without any assumption that the oracle is right: it copies the oracle into the store ---- *)
+Lemma rdkit_no_crash_wf I c m :
+  s_atoms (mol I) <> [] -> rdk_wf (rd I) -> m_crash (run_rdkit I (init_state c m)) = false.
+Proof.
+  intros N (NA & HC & HB). run_cbn.
+  rewrite (is_nil_false_length (s_atoms (mol I))) by (destruct (s_atoms (mol I)); [congruence | cbn; lia]).
+  fold (rdkit_atoms I).
+  assert (LA : 0 < length (rdkit_atoms I)).
+  { rewrite rdkit_atoms_length. destruct (r_atoms (rd I)); [congruence | cbn; lia]. }
+  rewrite (is_nil_false_length (rdkit_atoms I)) by exact LA.
+  rewrite nodes_present_lt.
+  2:{ intros k Hk. rewrite nodes_len_rebuild, rdkit_atoms_length. apply HC, Hk. }
+  rewrite edges_present_sub.
+  2:{ intros p Hp. rewrite has_edge_mark_stereo, has_edge_rebuild. cbn [pi_pairs bond_pairs] in *.
+      apply in_map_iff in Hp as [b [Hb Hin]]. apply filter_In in Hin as [Hin _].
+      apply (existsb_pair_is_in _ _ _ p); [|apply pair_is_self]. subst p. apply in_map. exact Hin. }
+  rewrite nodes_present_lt.
+  2:{ intros k Hk. rewrite nodes_mark_pi, nodes_len_mark_stereo, nodes_len_rebuild, rdkit_atoms_length.
+      cbn [stereo_idxs] in Hk. apply in_flat_map in Hk as [b [Hb Hk]]. apply filter_In in Hb as [Hb _].
+      destruct (HB b Hb) as [H1 H2]. destruct Hk as [<-|[<-|[]]]; assumption. }
+  reflexivity.
+Qed.
+
+Lemma rdkit_has_edge_oracle I i j :
+  has_edge (rdkit_graph I) i j = existsb (fun b => same_pair (rb_i b) (rb_j b) i j) (r_bonds (rd I)).
+Proof.
+  unfold rdkit_graph. rewrite has_edge_mark_stereo, has_edge_mark_pi, has_edge_mark_stereo, has_edge_rebuild.
+  cbn [bond_pairs]. now rewrite existsb_map.
+Qed.
+
+Lemma rdkit_edge_pi_oracle I i j :
+  edge_pi (rdkit_graph I) i j
+  = existsb (fun b => rb_nonsingle b && same_pair (rb_i b) (rb_j b) i j) (r_bonds (rd I)).
+Proof.
+  unfold rdkit_graph.
+  rewrite edge_pi_mark_stereo, edge_pi_mark_pi, edge_pi_mark_stereo, edge_pi_rebuild, has_edge_mark_stereo, has_edge_rebuild.
+  cbn [orb pi_pairs bond_pairs]. rewrite !existsb_map, existsb_filter. rewrite andb_absorb.
+  - apply existsb_ext_in. intros b _. now rewrite pair_is_rpair_of.
+  - apply existsb_weaken. intros b H. apply andb_true_iff in H as [_ H]. exact H.
+Qed.
+
+Lemma rdkit_node_stereo_oracle I q :
+  node_stereo (rdkit_graph I) q
+  = existsb (Nat.eqb q) (rdk_marks (rd I)) && (q <? length (r_atoms (rd I))).
+Proof.
+  unfold rdkit_graph.
+  rewrite node_stereo_mark_stereo, node_stereo_mark_pi, node_stereo_mark_stereo, node_stereo_rebuild,
+          nodes_mark_pi, nodes_len_mark_stereo, nodes_len_rebuild, rdkit_atoms_length.
+  cbn [orb stereo_idxs]. rewrite <- andb_orb_distrib_l, <- existsb_app. reflexivity.
 Qed.
 
 (* ========================================================================================== *)
@@ -888,11 +954,6 @@ Definition w_carbyne : inputs :=
               [mkRBond 0 1 false false; mkRBond 0 2 false false; mkRBond 0 3 false false; mkRBond 0 4 false false]
               [] false) (mkBld 0 true) (mkGraph [] []).
 
-(* [CH3:4]O with a failing Builder.build *)
-Definition w_buildfail : inputs :=
-  mkIn (mkSMol [mkSAtom 6 false 3 0%Z (Some 4) false; mkSAtom 8 false 1 0%Z None false] [mkSBond 0 1 1 false])
-       (mkRdk false 0%Z 0 [6; 8; 1; 1; 1; 1] [] [] false) (mkBld 0 false) (mkGraph [] []).
-
 (* non-vacuity:  [CH2:7]=[N+]([H])/...  kept small:  [CH2:7]=O  with a marked carbon is not chemistry, so
    the example is formaldehyde with an atom class, plus a separate marked example below *)
 Definition w_formaldehyde : inputs :=
@@ -919,7 +980,7 @@ Proof.
   - intros b Hb. cbn in Hb. destruct Hb as [<-|[<-|[<-|[]]]]; reflexivity.
   - intros k. destruct k as [|[|[|k]]]; reflexivity.
   - reflexivity.
-  - split; [cbn; lia | reflexivity].
+  - reflexivity.
 Qed.
 
 Lemma w_difluoroethene_agrees : rdk_agrees (mol w_difluoroethene) (rd w_difluoroethene).
@@ -930,7 +991,7 @@ Proof.
   - intros b Hb. cbn in Hb. destruct Hb as [<-|[<-|[<-|[<-|[<-|[]]]]]]; reflexivity.
   - intros k. destruct k as [|[|[|[|[|k]]]]]; reflexivity.
   - reflexivity.
-  - split; [cbn; lia | reflexivity].
+  - reflexivity.
 Qed.
 
 Lemma w_formaldehyde_arom : arom_consistent (mol w_formaldehyde).
